@@ -73,7 +73,7 @@ var c11Names = [c11nDims][]string{
 	c11dAcceptAll:   {"accept_all=false", "accept_all=true"},
 	c11dSuspicious:  {"not_suspicious", "suspicious"},
 	c11dPremium:     {"limit=premium", "limit=premium-1", "limit=premium+1"},
-	c11dBalance:     {"balance=amount+fee", "balance=amount+fee-1"},
+	c11dBalance:     {"balance=amount+fee", "balance=amount+fee-1", "balance=fee", "balance=fee-1", "balance=0"},
 	c11dScid:        {"100x1x0", "100:1:0", "abc", "999x9x9"},
 	c11dPubkey:      {"33_byte_hex", "32_byte_hex", "non_hex"},
 	c11dMin:         {"min=100000000msat", "min=1000msat", "min=100000500msat"},
@@ -203,10 +203,19 @@ func (c c11Case) concrete() c11Concrete {
 	k.Premium.Quo(k.Premium, c11Million)
 	k.Limit = k.Premium.Int64() + []int64{0, -1, 1}[c.D[c11dPremium]]
 	need := new(big.Int).Add(c11Big(k.Amount), c11Big(c11Fee))
-	if need.IsUint64() {
-		k.Balance = need.Uint64() - uint64(c.D[c11dBalance])
-	} else {
-		k.Balance = c11MaxU64 - uint64(c.D[c11dBalance])
+	switch c.D[c11dBalance] {
+	case 0, 1:
+		if need.IsUint64() {
+			k.Balance = need.Uint64() - uint64(c.D[c11dBalance])
+		} else {
+			k.Balance = c11MaxU64 - uint64(c.D[c11dBalance])
+		}
+	case 2:
+		k.Balance = c11Fee
+	case 3:
+		k.Balance = c11Fee - 1
+	case 4:
+		k.Balance = 0
 	}
 	k.Scid = c11Names[c11dScid][c.D[c11dScid]]
 	k.Pubkey = []string{c09Pub, c09Pub[:64], "zz" + c09Pub[2:]}[c.D[c11dPubkey]]
@@ -875,11 +884,11 @@ func TestC11(t *testing.T) {
 	rep.Alphabets = alph
 	amtNote := "remaining dimensions at their all-valid base"
 	if tier == "thorough" {
-		amtNote = "the whole product repeated with every combination of AT MOST TWO deviating values of the remaining dimensions (limit vs premium, balance, scid, pubkey, configured minimum): 1 + 10 + 39 = 50 settings"
+		amtNote = "the whole product repeated with every combination of AT MOST TWO deviating values of the remaining dimensions (limit vs premium, balance, scid, pubkey, configured minimum): 1 + 13 + 66 = 80 settings"
 	}
 	rep.Rule = "per case a fresh real swap.SwapService with a real policy.Policy loaded from a per-case file and the real premium.Setting; one crafted request from peer B through the node's message handler; verdict = messages sent back for that swap id (agreement 42073/42075, cancel 42079) vs a math/big reference predicate of the statement. " +
 		"(A) FULL cartesian product of the interacting dimensions {allow_new_swaps, btc enabled, lbtc enabled, request chain (6), protocol version (3), amount class (11), allowlisted, accept_all, suspicious} for both request types [" + amtNote + "]; " +
-		"(B) FULL product of the remaining dimensions {limit vs premium (3), on-chain balance (2), scid (4), pubkey (3), configured minimum (3)} combined with the base and with every single value of every dimension of (A) (all 11 amount classes) — so every value of every dimension and every pair of deviating dimensions is covered, and all combinations inside (A) and inside (B). " +
+		"(B) FULL product of the remaining dimensions {limit vs premium (3), on-chain balance (5: amount+fee, amount+fee-1, fee, fee-1, 0), scid (4), pubkey (3), configured minimum (3)} combined with the base and with every single value of every dimension of (A) (all 11 amount classes) — so every value of every dimension and every pair of deviating dimensions is covered, and all combinations inside (A) and inside (B). " +
 		"Channel direction: swap-in responder pays over Lightning -> spendable must carry the amount; swap-out responder is paid -> receivable (the other direction is 0 in every case). Balance/limit are tight in the base (balance = amount+fee, limit = premium)."
 	rep.Extra = map[string]any{"cases": len(cases), "worker_processes": n, "verdict_classes": cl}
 	rep.Assumptions = []string{"the Lightning node, wallet and chain are the simulations of the harness (SimWallet fee estimate is the constant 300 sat); CLN personality", "requested-swaps statistics are not inspected"}
